@@ -401,3 +401,9 @@ MANIFEST = {
 
 # pkg-tsigw: theorems about the TSIG-bearing responses of the extended composed model (Model/ServerWT.v), append-only
 CHECK["theorems"] = list(CHECK["theorems"]) + ['c04_tsig_within_limit_partial', 'c04_tsig_or_tc']
+
+# pkg-sproof: the signed TSIG record and the limit, append-only
+CHECK["theorems"] = list(CHECK["theorems"]) + ['c04_tsig_within_limit']
+MANIFEST["level_note"] += (" `c04_tsig_within_limit`: also the SIGNED TSIG-bearing responses (BADTIME, verified-without-records) are within "
+                           "the limit, for every verifier and every hmac of the algorithm's output size, the only fact about HMAC used (finish_signed_ok2: the signed "
+                           "record never exceeds signed_len = key + algorithm + 26 + MAC size (+ 6 BADTIME)).")
